@@ -10,6 +10,7 @@ import WS.Model.Handshake
 import WS.Model.NetConn
 import WS.Model.WsJson
 import WS.Model.Pool
+import WS.Model.Ping
 /-
   Command table of the driver.  Every command is a pure function String → String.
 -/
@@ -360,6 +361,50 @@ def cmdDeadline (args : List String) : String :=
     | none => "bad-args"
   | _ => "bad-args"
 
+/-- `pingreg evs`: evs = comma-separated `s` (a Ping call starts) | `p:<hex>` (a Pong with this payload
+arrives; every call whose channel then holds a token returns) | `x:<id>` (the call that drew id gives up).
+Prints per event `ping:<hex>` | `ok:<id>+<id>…` | `err:<id>` | `-`. -/
+def cmdPingReg (args : List String) : String :=
+  match args with
+  | [evs] =>
+    let rec go (es : List String) (s : Model.Ping.St) (acc : List String) : Option (List String) :=
+      match es with
+      | [] => some acc.reverse
+      | e :: rest =>
+        match e.splitOn ":" with
+        | ["s"] =>
+          match Model.Ping.step s .start with
+          | (s1, .sentPing p) => go rest s1 (("ping:" ++ toHex p.toUTF8.toList) :: acc)
+          | (s1, _) => go rest s1 ("-" :: acc)
+        | ["p", h] =>
+          match ofHex h with
+          | some b =>
+            match String.fromUTF8? (ByteArray.mk b.toArray) with
+            | some p =>
+              let s1 := (Model.Ping.step s (.pong p)).1
+              -- every call whose channel now holds a token takes it and returns (the `finish` steps)
+              let ids := (s1.active.filter (·.got)).map (·.id)
+              let (s2, outs) := Model.Ping.run (ids.map .finish) s1
+              let done := outs.filterMap fun o => match o with
+                | .returnedOk id => some id
+                | _ => none
+              let o := if done.isEmpty then "-" else "ok:" ++ String.intercalate "+" (done.map toString)
+              go rest s2 (o :: acc)
+            | none => go rest s ("-" :: acc)   -- not UTF-8: equals no decimal payload
+          | none => none
+        | ["x", i] =>
+          match i.toNat? with
+          | some id =>
+            match Model.Ping.step s (.cancel id) with
+            | (s1, .returnedErr _) => go rest s1 (s!"err:{id}" :: acc)
+            | (s1, _) => go rest s1 ("-" :: acc)
+          | none => none
+        | _ => none
+    match go (if evs == "." then [] else evs.splitOn ",") Model.Ping.init [] with
+    | some os => "ok " ++ String.intercalate "," os
+    | none => "bad-args"
+  | _ => "bad-args"
+
 /-- `json-rt hex`: parse the JSON text with the Lean codec and print it again -/
 def cmdJsonRt (args : List String) : String :=
   match args with
@@ -415,6 +460,7 @@ def handle (line : String) : String :=
     | "srv-resp" => cmdSrvResp args
     | "netconn" => cmdNetConn args
     | "deadline" => cmdDeadline args
+    | "pingreg" => cmdPingReg args
     | "json-rt" => cmdJsonRt args
     | "pool-monitor" => cmdPoolMonitor args
     | "ping" => "pong"
